@@ -146,6 +146,13 @@ func c19One(c *ev.Ctx, cs ev.Case) {
 			try("type="+cc.SrcType+"-vs-wrapper", img.Wrapper{I: typed}, tref)
 		}
 	}
+	// the 16-bit types have no import path of their own: they are read through At(), so they must give the file of
+	// their canonical 8-bit reading (the *image.NRGBA holding NRGBAModel.Convert of every pixel)
+	if cc.SrcType == "NRGBA64" || cc.SrcType == "RGBA64" || cc.SrcType == "Gray16" || cc.SrcType == "Alpha16" {
+		if cref, err := encode(img.ToNRGBA(typed), o); err == nil {
+			try("type="+cc.SrcType+"-vs-its-8-bit-reading", typed, cref)
+		}
+	}
 	// a concrete Go type away from the origin vs the same colours behind a wrapper (even shifts keep
 	// the chroma siting of the subsampled YCbCr types)
 	sh := img.AsType(rng(c, cs.Idx+9<<20), img.Shift(base, 2*(1+tr.Intn(9)), -2*(1+tr.Intn(9))), cc.SrcType)
